@@ -31,6 +31,13 @@
 (*            sends and the output; 2: one on top of every receive; 3: both)*)
 (*   staple   rank -> 0 | 1: send holders on top of the output expression  *)
 (*            or below it                                                  *)
+(*   eo       rank -> 0..2: an extra overall output that is a materialised *)
+(*            array other parts read too: 1 = the rank's input unchanged,  *)
+(*            2 = the stored intermediate below the sends (else the input) *)
+(* A valid send may also SHARE its data with an earlier send of its rank   *)
+(* (share = j: one array, several send nodes, other destination / tag);    *)
+(* with a send of another array between them in holder order this is the   *)
+(* "interleaved shared array" shape.                                       *)
 (* ptverif/distharness.py (comm_to_prog) turns this into real pytato DAGs. *)
 (*                                                                         *)
 (* The state machine builds programs step by step (AddMsg in increasing    *)
@@ -57,8 +64,8 @@ CONSTANTS MaxRanks,     \* 1..MaxRanks ranks
                         \* kept (for exhaustive enumeration); FALSE: any order, no
                         \* symmetry reduction (for -simulate)
 
-VARIABLES n, sends, recvs, stored, staple, faults, phase, cur
-vars == <<n, sends, recvs, stored, staple, faults, phase, cur>>
+VARIABLES n, sends, recvs, stored, staple, eo, faults, phase, cur
+vars == <<n, sends, recvs, stored, staple, eo, faults, phase, cur>>
 
 RanksOf(nn) == 0..(nn - 1)
 Rks == RanksOf(n)
@@ -77,7 +84,9 @@ NestDepth(i) == IF sends[i].inside = 0 THEN 0
 \* may host another holder in its data: computed data of its own, not nested too deep
 CanHost(k) == sends[k].on /\ sends[k].kind = "comp" /\ sends[k].share = 0 /\ NestDepth(k) <= 1
 \* a duplicate send of the same data has the dependencies of the send it shares with
-EffDeps(i) == IF sends[i].share > 0 THEN sends[sends[i].share].deps ELSE sends[i].deps
+EffDeps(i) == IF sends[i].share = 0 THEN sends[i].deps
+              ELSE IF sends[sends[i].share].share = 0 THEN sends[sends[i].share].deps
+              ELSE sends[sends[sends[i].share].share].deps
 RReach(j) == recvs[j].on /\ (recvs[j].use # "none" \/
                              \E i \in SOn : sends[i].src = recvs[j].dst /\ j \in EffDeps(i))
 ROn == {j \in DOMAIN recvs : RReach(j)}
@@ -194,6 +203,7 @@ Canonical ==
 Init == /\ n \in 1..MaxRanks
         /\ sends = <<>> /\ recvs = <<>>
         /\ stored = [r \in RanksOf(n) |-> 0] /\ staple = [r \in RanksOf(n) |-> 0]
+        /\ eo = [r \in RanksOf(n) |-> 0]
         /\ faults = <<>> /\ phase = "msgs" /\ cur = 0
 
 AddMsg(s, d, t) ==
@@ -204,11 +214,11 @@ AddMsg(s, d, t) ==
                              share |-> 0, on |-> TRUE, inside |-> 0, par |-> FALSE])
   /\ recvs' = Append(recvs, [dst |-> d, src |-> s, tag |-> t, use |-> "out", v |-> 0, on |-> TRUE])
   /\ cur' = TripNo(n, <<s, d, t>>)
-  /\ UNCHANGED <<n, stored, staple, faults, phase>>
+  /\ UNCHANGED <<n, stored, staple, eo, faults, phase>>
 
 EndMsgs == /\ phase = "msgs" /\ Len(sends) >= MinOps /\ (Exhaustive => Canonical)
            /\ phase' = "deps" /\ cur' = 1
-           /\ UNCHANGED <<n, sends, recvs, stored, staple, faults>>
+           /\ UNCHANGED <<n, sends, recvs, stored, staple, eo, faults>>
 
 Kinds(D) == IF ~Variants THEN {"comp"}
             ELSE IF D = {} THEN {"comp", "in"}
@@ -220,19 +230,29 @@ Places == IF ~Variants THEN {<<0, FALSE>>}
           ELSE {<<0, FALSE>>, <<0, TRUE>>} \cup
                {<<k, FALSE>> : k \in {k \in 1..(cur - 1) : sends[k].src = sends[cur].src /\ CanHost(k)}}
 
+\* earlier sends of the same rank whose array send cur may send as well
+Sharable == IF ~Variants THEN {}
+            ELSE {j \in 1..(cur - 1) : sends[j].src = sends[cur].src /\ sends[j].share = 0}
+
 ChooseDeps ==
   /\ phase = "deps" /\ cur <= Len(sends)
-  /\ \E D \in SUBSET {j \in DOMAIN recvs : recvs[j].dst = sends[cur].src} :
-       \E k \in Kinds(D) : \E pl \in Places :
-          sends' = [sends EXCEPT ![cur].deps = D, ![cur].kind = k,
-                                 ![cur].inside = pl[1], ![cur].par = pl[2]]
+  /\ \/ \E D \in SUBSET {j \in DOMAIN recvs : recvs[j].dst = sends[cur].src} :
+          \E k \in Kinds(D) : \E pl \in Places :
+             sends' = [sends EXCEPT ![cur].deps = D, ![cur].kind = k,
+                                    ![cur].inside = pl[1], ![cur].par = pl[2]]
+     \* (the sharing send cannot sit inside the very data it sends)
+     \/ \E j \in Sharable :
+          \E pl \in {q \in Places : q[1] = 0 \/ (q[1] # j /\ sends[q[1]].inside # j)} :
+             sends' = [sends EXCEPT ![cur].deps = sends[j].deps, ![cur].kind = sends[j].kind,
+                                    ![cur].share = j,
+                                    ![cur].inside = pl[1], ![cur].par = pl[2]]
   /\ cur' = cur + 1
-  /\ UNCHANGED <<n, recvs, stored, staple, faults, phase>>
+  /\ UNCHANGED <<n, recvs, stored, staple, eo, faults, phase>>
 
 EndDeps == /\ phase = "deps" /\ cur > Len(sends) /\ ~Cyclic
            /\ phase' = IF Variants THEN "uses" ELSE "done"
            /\ cur' = 1
-           /\ UNCHANGED <<n, sends, recvs, stored, staple, faults>>
+           /\ UNCHANGED <<n, sends, recvs, stored, staple, eo, faults>>
 
 Uses(j) == IF \E i \in DOMAIN sends : sends[i].src = recvs[j].dst /\ j \in sends[i].deps
            THEN {"out", "asout", "both", "none"} ELSE {"out", "asout", "both"}
@@ -241,29 +261,31 @@ ChooseUse ==
   /\ phase = "uses" /\ cur <= Len(recvs)
   /\ \E u \in Uses(cur) : recvs' = [recvs EXCEPT ![cur].use = u]
   /\ cur' = cur + 1
-  /\ UNCHANGED <<n, sends, stored, staple, faults, phase>>
+  /\ UNCHANGED <<n, sends, stored, staple, eo, faults, phase>>
 
 EndUses == /\ phase = "uses" /\ cur > Len(recvs)
            /\ phase' = "stored" /\ cur' = 0
-           /\ UNCHANGED <<n, sends, recvs, stored, staple, faults>>
+           /\ UNCHANGED <<n, sends, recvs, stored, staple, eo, faults>>
 
 ChooseStored ==
   /\ phase = "stored" /\ cur < n
   /\ \E m \in 0..3 : \E st \in 0..1 :
+       \E e \in (IF \E i \in DOMAIN sends : sends[i].src = cur THEN 0..2 ELSE {0}) :
        /\ stored' = [stored EXCEPT ![cur] = m]
        /\ staple' = [staple EXCEPT ![cur] = st]
+       /\ eo' = [eo EXCEPT ![cur] = e]
   /\ cur' = cur + 1
   /\ UNCHANGED <<n, sends, recvs, faults, phase>>
 
 EndStored == /\ phase = "stored" /\ cur >= n
              /\ phase' = "done" /\ cur' = 0
-             /\ UNCHANGED <<n, sends, recvs, stored, staple, faults>>
+             /\ UNCHANGED <<n, sends, recvs, stored, staple, eo, faults>>
 
 ---------------------------------------------------------------------------
 (* faults: applied to finished valid programs *)
 CanFault == phase = "done" /\ Len(faults) < MaxFaults
 Faulted(f) == /\ faults' = Append(faults, f)
-              /\ UNCHANGED <<n, stored, staple, phase, cur>>
+              /\ UNCHANGED <<n, stored, staple, eo, phase, cur>>
 
 DropSend(i) == /\ CanFault /\ i \in SOn
                /\ sends' = [sends EXCEPT ![i].on = FALSE]
@@ -376,6 +398,7 @@ Behaviour ==
                  reach |-> RReach(j)]],
    stored |-> [r \in 1..n |-> stored[r - 1]],
    staple |-> [r \in 1..n |-> staple[r - 1]],
+   eo |-> [r \in 1..n |-> eo[r - 1]],
    faults |-> faults,
    wf |-> WellFormedInput,
    why |-> Why,
